@@ -195,7 +195,14 @@ func (fr *frame) modifiesObls(ctr *FuncContract, envPre *Env, r retSite, site st
 			if whole {
 				continue
 			}
-			if strings.HasPrefix(k, "MV:") || strings.HasPrefix(k, "MD:") {
+			if strings.HasPrefix(k, "SM:") {
+				inner := arrayRange(sortK)
+				exc := "false"
+				if len(entryEx) > 0 {
+					exc = "(or " + strings.Join(entryEx, " ") + ")"
+				}
+				goal = fmt.Sprintf("(forall ((fr_r Int) (fr_k %s)) (=> (and true %s (not %s)) (= (select (select %s fr_r) fr_k) (select (select %s fr_r) fr_k))))", arrayDomain(inner), strings.Join(ex, " "), exc, fin, ini)
+			} else if strings.HasPrefix(k, "MV:") || strings.HasPrefix(k, "MD:") {
 				inner := arrayRange(sortK)
 				exc := "false"
 				if len(entryEx) > 0 {
